@@ -136,6 +136,41 @@ def free_running(chk, exe, runs, tag, tsan=False):
         chk.sample(dict(kind="code->spec events (free-running)", threads=meta[0][0]["threads"], events=[(e["e"], e["t"]) for e in execs[0][:16]]))
 
 
+def apalache(chk):
+    """Unbounded part: Apalache discharges an inductive invariant of the lock / buffer core (4 threads, any number of
+    records and bytes, behaviours of any length).  A tool problem is only noted; a refuted obligation is a verdict."""
+    import shutil, subprocess, time
+    exe = shutil.which("apalache-mc")
+    if not exe:
+        chk.notes.append("apalache-mc not found: inductive invariant not checked")
+        return
+    d = os.path.join(vc.SPEC, "log", "apalache")
+    out = os.path.join(vc.OUT, "apalache_%d" % os.getpid())
+    obligations = [("Init => IndInv", "LogMTInd.tla", ["--init=Init", "--inv=IndInv", "--length=0"], 0),
+                   ("IndInv /\\ Next => IndInv'", "LogMTInd.tla", ["--init=IndInv", "--inv=IndInv", "--length=1"], 0),
+                   ("IndInv => MutualExclusion", "LogMTInd.tla", ["--init=IndInv", "--inv=MutualExclusion", "--length=0"], 0),
+                   ("negative control: without 'lock = 0' in Acquire the inductive step fails", "LogMTIndNoLock.tla", ["--init=IndInv", "--inv=IndInv", "--length=1"], 12)]
+    done = []
+    for name, mod, args, want in obligations:
+        t0 = time.time()
+        try:
+            p = subprocess.run([exe, "check", "--out-dir=" + out, "--cinit=ConstInit"] + args + [mod], cwd=d, capture_output=True, text=True, timeout=600)
+        except subprocess.TimeoutExpired:
+            chk.notes.append("apalache: %s timed out (not counted)" % name)
+            continue
+        if p.returncode == want:
+            done.append("%s (%.0fs)" % (name, time.time() - t0))
+        elif p.returncode in (0, 12):
+            pth = os.path.join(chk.out, "apalache_%s.txt" % mod)
+            open(pth, "w").write(p.stdout[-4000:])
+            chk.divergences.append(dict(where="model:LogMTInd", observed="obligation refuted", witness=None,
+                                        detail="Apalache: obligation '%s' has exit code %d, expected %d" % (name, p.returncode, want), replay=pth))
+        else:
+            chk.notes.append("apalache: %s: tool error %d (not counted)" % (name, p.returncode))
+    shutil.rmtree(out, ignore_errors=True)
+    chk.notes.append("Apalache 0.58 inductive invariant (4 threads, unbounded records/bytes): " + "; ".join(done))
+
+
 def run(chk, replay_path):
     exe = vc.build_driver("logmt_driver", ["logmt_driver.cpp"], ldflags=["-pthread"], flags=["-pthread"])
     if replay_path:
@@ -151,6 +186,7 @@ def run(chk, replay_path):
     if r["violated"] not in ("MutualExclusion", "Contiguous"):
         raise vc.Infra("negative control: LogMT without the lock does not violate mutual exclusion (%s)" % r["violated"])
     chk.notes.append("negative control: LogMT with UseLock = FALSE violates %s" % r["violated"])
+    apalache(chk)
     replay(chk, exe, "q", 2, 2, 2)
     replay(chk, exe, "n3", 3, 1, 2)
     if chk.thorough():
